@@ -249,9 +249,16 @@ pub fn run(ctx: &mut Ctx) {
         for q in &queries {
             let qstr = q.iter().map(|h| h.hex()).collect::<Vec<_>>().join(",");
             let am = mem.chunk_hash_dedup_query(q);
-            // the in-memory answer refers to the block that was current when the chunk was indexed
-            let mem_view: BTreeMap<MerkleHash, MDBCASInfo> = g.cas.iter().map(|c| (c.metadata.cas_hash, c.clone())).collect();
-            if let Err(e) = truthful(&am, q, &mem_view, None) { if am.as_ref().map(|a| a.0) != Some(0) || !q.is_empty() { ctx.fail("C05", "mem-untruthful", format!("in-memory dedup answer not truthful: {e} (case {case_no})"), replay.clone()); } }
+            // the in-memory answer refers to the block that was current when the chunk was indexed: when the generator re-added a
+            // xorb hash with a DIFFERENT chunk list (impossible for content-addressed xorbs short of a hash collision; generated to
+            // exercise the size accounting), the answer may be truthful for the earlier version of that record
+            let versions = |h: &MerkleHash| -> Vec<&MDBCASInfo> { g.cas.iter().filter(|c| c.metadata.cas_hash == *h).collect() };
+            let mem_ok = match &am { None => Ok(()), Some((_, seg)) => {
+                let vs = versions(&seg.cas_hash);
+                let mut last = Err("xorb of the answer is not in the shard".to_string());
+                for v in vs { let view: BTreeMap<MerkleHash, MDBCASInfo> = [(v.metadata.cas_hash, v.clone())].into_iter().collect(); last = truthful(&am, q, &view, None); if last.is_ok() { break; } }
+                last } };
+            if let Err(e) = mem_ok { if am.as_ref().map(|a| a.0) != Some(0) || !q.is_empty() { ctx.fail("C05", "mem-untruthful", format!("in-memory dedup answer not truthful: {e} (case {case_no})"), replay.clone()); } }
             ctx.op(&format!("shard.memdedup files={fo}:0 cas={co}:{cl} q={qstr}"), &answer_str(&am));
             let mut cands = [(0u32, 0u32); 8];
             let nc = if q.is_empty() || info.metadata.chunk_lookup_num_entry == 0 { 0 } else { loaded.get_cas_info_index_by_chunk(&mut Cursor::new(&bytes), &q[0], &mut cands).unwrap() };
